@@ -8,7 +8,8 @@ for id in $ids; do
     m=$(basename $d)
     [ "$which" != all ] && [ "$which" != "$m" ] && continue
     out=$(timeout 2400 /verif/tools/seedrun.sh $d/patch.diff $id quick 60 2>&1)
-    if [ -n "$(git -C /repo status --short --untracked-files=no)" ]; then git -C /repo checkout -- .; fi
+    # seedrun.sh restores /repo itself (also when killed); should anything be left, revert it only while holding the lock
+    flock -x /verif/build/repo.lock -c 'if [ -n "$(git -C /repo status --short --untracked-files=no)" ]; then git -C /repo checkout -- .; fi' 
     if echo "$out" | grep -q "^VIOLATION.*no-failing-input-found"; then r="CAUGHT(no-input)";
     elif echo "$out" | grep -q "^VIOLATION"; then r="CAUGHT(input)";
     elif echo "$out" | grep -q "^OK"; then r="MISSED"; else r="?? $(echo "$out" | tail -2 | tr '\n' ' ' | cut -c1-200)"; fi
